@@ -531,11 +531,11 @@ fn finale_c17(m: &mut Machine) -> Result<(), Stop> {
 }
 
 fn cc_c07(tier: Tier) -> crate::crash::CrashCfg {
-    crate::crash::CrashCfg { max_states: tier.pick(80, 400), exhaustive_w: tier.pick(3, 6), per_instant: tier.pick(3, 5), nested_depth: 1, nested_states: 1, check_integrity: false, continue_writes: false, phases: &[] }
+    crate::crash::CrashCfg { max_states: tier.pick(80, 200), exhaustive_w: tier.pick(3, 6), per_instant: tier.pick(3, 5), nested_depth: 1, nested_states: 1, check_integrity: false, continue_writes: false, phases: &[] }
 }
 
 fn cc_c13(tier: Tier) -> crate::crash::CrashCfg {
-    crate::crash::CrashCfg { max_states: tier.pick(150, 800), exhaustive_w: tier.pick(4, 7), per_instant: tier.pick(5, 8), nested_depth: 1, nested_states: 1, check_integrity: false, continue_writes: false, phases: &["compact"] }
+    crate::crash::CrashCfg { max_states: tier.pick(150, 400), exhaustive_w: tier.pick(4, 7), per_instant: tier.pick(5, 8), nested_depth: 1, nested_states: 1, check_integrity: false, continue_writes: false, phases: &["compact"] }
 }
 
 pub fn c17() -> HistCheck {
